@@ -4,7 +4,7 @@
    correspondence on FALCON's own fusion_art); get_rewards is FusionART
    prediction with the reward channel withheld (C11). *)
 From Coq Require Import List Bool Arith Reals.
-From ART Require Import Num NumR Vec Search Kernel Fuzzy Falcon Falcon_R.
+From ART Require Import Num NumR Vec Search Kernel Fuzzy Falcon Falcon_R Falcon_ep.
 Import ListNotations.
 Open Scope R_scope.
 
@@ -33,7 +33,36 @@ Theorem C16_greedy_action :
       (forall j b, nth_error rewards j = Some b -> b <= t) /\
       (forall j b, (j < i)%nat -> nth_error rewards j = Some b -> b < t).
 Proof. exact @get_action_first_max. Qed.
+(* whole calculate_SARSA calls, episodes of every length >= 1 *)
+Theorem C16_one_target_per_kept_row :
+  forall alpha lambda (Q : list R) (rew : list (list R)) single,
+    length Q = length rew -> (1 <= length rew)%nat ->
+    fst (@calc_sarsa RN alpha lambda Q rew single) = length (snd (@calc_sarsa RN alpha lambda Q rew single)).
+Proof. exact calc_sarsa_counts. Qed.
+Theorem C16_every_target_is_a_valid_input :
+  forall alpha lambda (Q : list R) (rew : list (list R)) single,
+    Forall (fun row => @fuzzy_valid RN row = true) rew ->
+    (forall r, single = Some r -> 0 <= r <= 1) ->
+    Forall (fun row => @fuzzy_valid RN row = true) (snd (@calc_sarsa RN alpha lambda Q rew single)).
+Proof. exact calc_sarsa_valid. Qed.
+Theorem C16_one_step_episode_trains_on_its_reward :
+  forall alpha lambda (Q : list R) (row : list R), @calc_sarsa RN alpha lambda Q [row] None = (1%nat, [row]).
+Proof. exact calc_sarsa_single. Qed.
+Theorem C16_untrained_target_for_every_alpha :
+  forall alpha lambda (Q r : list R) t r0,
+    Forall (fun q => q = 0) Q -> (S t < length Q)%nat -> nth_error r t = Some r0 ->
+    nth_error (@sarsa RN alpha lambda Q r) t = Some (@clip01 RN (alpha * r0)).
+Proof. exact sarsa_untrained_gen. Qed.
+Theorem C16_greedy_action_minimal_on_request :
+  forall (A : Type) (space : list A) (rewards : list R) a,
+    @get_action RN A false space rewards = Some a ->
+    exists i t, nth_error space i = Some a /\ nth_error rewards i = Some t /\
+      (forall j b, nth_error rewards j = Some b -> t <= b) /\
+      (forall j b, (j < i)%nat -> nth_error rewards j = Some b -> t < b).
+Proof. exact @get_action_first_min. Qed.
 Print Assumptions C16_sarsa_formula.
+Print Assumptions C16_every_target_is_a_valid_input.
+Print Assumptions C16_greedy_action_minimal_on_request.
 Print Assumptions C16_greedy_action.
 
 From Coq Require Import QArith.
